@@ -11,6 +11,8 @@ U = Fraction(1, 2 ** 53)
 
 
 def gen_coef(rng, fam):
+    if fam == "mixed":      # scalars of a mixed history: floats
+        fam = rng.choice(["generic", "dyadic"])
     if fam == "int":
         return rng.randint(-9, 9)
     if fam == "dyadic":
@@ -36,6 +38,10 @@ def lit(rng, fam, par, maxlen, pzero=0.15):
     """a literal LPoly of parity par (0/1)"""
     n = 0 if rng.random() < pzero else rng.randint(1, maxlen)
     dmin = 2 * rng.randint(-7, 5) + par
+    if fam == "mixed":      # each literal is either integer-typed (Python ints) or float-typed, often a single term
+        fam = rng.choice(["int", "int", "generic", "dyadic"])
+        if n and rng.random() < 0.35:
+            n = 1
     return ["lit", dmin, gen_vec(rng, fam, n)]
 
 
